@@ -3,7 +3,7 @@
    used for the core fragment.  Cnl/Core.v: the core fragment F0, its compile model (byte-exact on F0), grounding, and the reading. *)
 Require Import Coq.Strings.String Coq.Lists.List Coq.Bool.Bool.
 Require Import Coq.ZArith.ZArith Lia.
-Require Import Cnl2aspV.Asp.Ground Cnl2aspV.Cnl.Core Cnl2aspV.Cnl.CoreProofs Cnl2aspV.Cnl.CoreOneOf.
+Require Import Cnl2aspV.Asp.Ground Cnl2aspV.Cnl.Core Cnl2aspV.Cnl.CoreProofs Cnl2aspV.Cnl.CoreOneOf Cnl2aspV.Cnl.CoreDef.
 Import ListNotations.
 
 (* for hierarchical ground programs (no predicate depends on itself): I is a stable model iff it satisfies the constraints and
@@ -94,3 +94,42 @@ Proof.
   - intros x Hx. vm_compute in Hx. destruct Hx as [<-|[<-|[]]]; [exists 1%Z|exists 2%Z]; (split; [unfold small; lia|reflexivity]).
   - intros v [<-|[<-|[]]]; unfold small; lia.
 Qed.
+
+(* Core fragment, a derived definition over one quantified clause ("A c X is <p> when c X [does not] <verb> d Y."): the ground
+   instances of the compiled rule are closed in I and support every p-atom of a declared subject in I exactly when the reading
+   holds -- p holds of precisely the subjects for which some declared object makes the clause true (for a negated clause: some
+   object the subject is NOT related to).  Together with C01_hierarchical_stable (closed + supported + constraints = stable for
+   hierarchical programs) this is the definition's share of "the answer sets are the models of the reading".  For every
+   specification, relation, polarity, universe and interpretation, under the hypotheses of C01_single_clause_constraint_partial.
+   Partial: one clause, the definition is about the clause's subject. *)
+Theorem C01_single_clause_definition_partial :
+  forall (s : spec) (U : list string) (I : interp) (cl : clause) (newpred : string),
+    cl_slabel cl <> cl_olabel cl ->
+    (forall x, In x U -> holds I (atom_text (cl_subj cl) [x]) = Util.mem_string x (dom_of s (cl_subj cl))) ->
+    (forall y, In y U -> holds I (atom_text (cl_obj cl) [y]) = Util.mem_string y (dom_of s (cl_obj cl))) ->
+    incl (dom_of s (cl_subj cl)) U -> incl (dom_of s (cl_obj cl)) U ->
+    let x := SDef (cl_subj cl) (cl_slabel cl) newpred [cl] in
+    let G := flat_map (ground_rule U) (compile_sentence s x) in
+    closedb I G && forallb (fun x0 => negb (holds I (atom_text newpred [x0])) || supported_atom I G (atom_text newpred [x0])) (dom_of s (cl_subj cl))
+    = r_sentence s I x.
+Proof. exact one_clause_definition_correct. Qed.
+Print Assumptions C01_single_clause_definition_partial.
+
+(* closedb / supported_atom are the notions of Asp/Ground.v *)
+Theorem C01_closedb_is_closed : forall I G, closedb I G = true <-> closed G I.
+Proof. exact closedb_spec. Qed.
+Theorem C01_supported_atom_is_supported : forall I G a, supported_atom I G a = true <-> exists r, In r G /\ supports I a r.
+Proof. exact supported_atom_spec. Qed.
+
+(* non-vacuity: rooms 1..2, shelf 1, room 1 hosts shelf 1; 'A room R is busy when room R host shelf S.' holds with busy(1) only,
+   and fails when busy(2) is added (unsupported) or busy(1) is missing (not closed) *)
+Example C01_definition_example :
+  let s := {| concepts := [{| c_name := "room"; c_key := "id"; c_dom := DRange 1 2 |}; {| c_name := "shelf"; c_key := "id"; c_dom := DRange 1 1 |}];
+              sentences := [] |} in
+  let cl := {| cl_subj := "room"; cl_slabel := "R"; cl_neg := false; cl_verb := {| v_word := "host"; v_copula := false; v_prep := None |};
+               cl_obj := "shelf"; cl_olabel := "S" |} in
+  let x := SDef "room" "R" "busy" [cl] in
+  let base := ["room(1)"; "room(2)"; "shelf(1)"; "host(1,1)"]%string in
+  r_sentence s (("busy(1)" :: base)%string) x = true /\ r_sentence s base x = false /\ r_sentence s (("busy(1)" :: "busy(2)" :: base)%string) x = false /\
+  print_program (compile_sentence s x) = ("busy(R) :- room(R), host(R,S), shelf(S)." ++ Str.nl)%string.
+Proof. vm_compute. repeat split. Qed.
